@@ -101,6 +101,10 @@ class ZorgFileCompiler(ZorgFileListener):
         self._add_tag("contexts", ctx.children[1].getText())
 
     def enterDate(self, ctx: ZorgFileParser.DateContext) -> None:  # noqa: D102
+        # The lexer's DATE token also matches digits that are not a calendar
+        # date (e.g. 2024-02-30), which we treat as an ordinary word.
+        if not zdt.is_long_date_spec(ctx.DATE().getText()):
+            return
         get_datetime = partial(
             dt.datetime.strptime, ctx.DATE().getText(), "%Y-%m-%d"
         )
